@@ -184,6 +184,72 @@ func (r *run) checkRaw(capture string, raw *internal.RawXMLValue, want *xmltree.
 	r.checkXMLName(capture, raw, want)
 	r.checkTokens(capture, raw, want)
 	r.checkMarshal("marshal", capture, raw, want)
+	r.checkInterleaved(capture, raw, want)
+}
+
+// hookReader runs hook once, just before delivering token number k.
+type hookReader struct {
+	tr   xml.TokenReader
+	k, n int
+	hook func()
+}
+
+func (h *hookReader) Token() (xml.Token, error) {
+	if h.n == h.k && h.hook != nil {
+		f := h.hook
+		h.hook = nil
+		f()
+	}
+	h.n++
+	return h.tr.Token()
+}
+
+// checkInterleaved: a raw value is read-only, so traversals of one value may
+// overlap. A first walk is paused before its k-th token (k = 0, 1, middle,
+// last), a second complete walk over a NEW TokenReader(), an xml.Marshal and
+// a Decode of the same value run, then the first walk goes on: both walks
+// must denote the captured tree.
+func (r *run) checkInterleaved(capture string, raw *internal.RawXMLValue, want *xmltree.Node) {
+	total := r.ld.Tokens
+	if total > 400 {
+		return
+	}
+	bound := 2*total + 2
+	for _, k := range []int{0, 1, total / 2, total - 1} {
+		if k < 0 {
+			continue
+		}
+		var inner streamObs
+		var o streamObs
+		hook := func() {
+			inner = readStream(raw.TokenReader(), bound)
+			xml.Marshal(raw)
+			var g genericTyped
+			raw.Decode(&g)
+		}
+		if p, pv, st := fw.Guard(func() { o = readStream(&hookReader{tr: raw.TokenReader(), k: k, hook: hook}, bound) }); p {
+			r.report("tokens-interleaved", "panic "+fw.PanicSite(st), fmt.Sprintf("overlapping traversals panicked: %v", pv), capture, "", st)
+			return
+		}
+		for wi, w := range []streamObs{o, inner} {
+			which := []string{"the paused walk", "the walk started while another was paused"}[wi]
+			if wi == 1 && k >= bound {
+				continue
+			}
+			if w.Problem != "" {
+				r.report("tokens-interleaved", w.Problem, fmt.Sprintf("overlapping traversals of one raw value (first paused before token %d of %d): %s: %s (%s)", k, total, which, w.Problem, w.Detail), capture, "", w.Detail)
+				return
+			}
+			if w.Tree == nil {
+				continue // the hook position was never reached (shorter stream than counted)
+			}
+			if d := firstDiff(want, w.Tree); d != nil {
+				r.report("tokens-interleaved", d.feature(r.ld, r.idx), fmt.Sprintf("overlapping traversals of one raw value (first paused before token %d of %d): %s denotes another tree: %s %s", k, total, which, d.Kind, d.Detail), capture, w.Tree.Canon(cmp), d.Kind+": "+d.Detail)
+				return
+			}
+		}
+		r.c.Observe("token_stream", "overlapping traversals: both walks denote the captured tree", 1)
+	}
 }
 
 // sameDecode compares Decode-from-raw with direct decoding.
@@ -613,6 +679,9 @@ var fixedDocs = []string{
 }
 
 func c15Run(c *fw.Ctx) {
+	// first of all: the first typed decode of this process decides what a
+	// process-wide table keyed too coarsely would remember
+	runPackages(c)
 	// The fixed documents are executed by every shard, first, so that the
 	// witness kept for a key is a small one whenever a fixed document shows it.
 	for _, d := range fixedDocs {
